@@ -288,7 +288,7 @@ def d2_sole_writers(chk: Check) -> None:
     ef = Effects(prog)
     ef.summarise(cl)
     for fi in cl:
-        if fi.qual in read:
+        if fi.qual in read and fi.short not in allowed:
             continue      # the read path is C09-D1's subject
         chk.analysed(fi)
         for site in mutation_sites(fi):
@@ -528,6 +528,8 @@ def run(chk: Check) -> None:
     d1m_own_entries(chk)
     d3b_retry_forwards_value(chk)
     d7_float_presentation(chk)
+    d8_type_ladders(chk)
+    d9_rename_position(chk)
     from rules.c10 import d5_no_live_mutation
     d5_no_live_mutation(chk, "C03-D6", ("yamlpath/processor.py",
                                          "yamlpath/common/nodes.py"))
@@ -673,4 +675,102 @@ def d7_float_presentation(chk: Check) -> None:
                      "prec={} width={} makes ruamel print {!r}: the "
                      "document no longer holds the value that was set"
                      .format(vals["prec"].value, vals["width"].value, shown))
+
+
+def d8_type_ladders(chk: Check) -> None:
+    """The format of a new value is detected by class (from_node,
+    wrap_type, make_new_node).  A date is a timestamp by inheritance
+    (AnchoredDate derives from AnchoredTimeStamp, datetime from date): an
+    isinstance arm for the base class placed first swallows the subclass,
+    and a date written through the default format comes out as a
+    timestamp."""
+    from sa.ladders import shadowed_arms
+    prog = chk.prog
+    chk.rule("C03-D8", "in the value-format detection (enums, nodes.py) no "
+             "isinstance arm is (partly) shadowed by an earlier arm for a "
+             "base class", floor=1)
+    # the detector must fire on a known-bad sample on every run (today's
+    # code tests exact types with `is`, which cannot shadow)
+    import ast as _ast
+    from sa.model import set_parents
+
+    class _F:
+        pass
+    sample = _ast.parse(
+        "def f(node):\n"
+        "    if isinstance(node, (AnchoredTimeStamp, datetime)):\n"
+        "        return 1\n"
+        "    elif isinstance(node, (AnchoredDate, date)):\n"
+        "        return 2\n").body[0]
+    set_parents(sample)
+    holder = _F()
+    holder.node = sample  # type: ignore[attr-defined]
+    hits, _ = shadowed_arms(prog, holder)  # type: ignore[arg-type]
+    if len(hits) != 1:
+        raise AnalysisError("shadowed-arm detector lost its positive sample")
+    chk.ok("C03-D8", None, None, "positive sample",
+           "detector fires on date-after-timestamp", False)
+    n_total = 0
+    for fi in prog.functions.values():
+        rel = fi.module.relpath
+        if not (rel.startswith("yamlpath/enums/") or
+                rel == "yamlpath/common/nodes.py"):
+            continue
+        bad, n = shadowed_arms(prog, fi)
+        n_total += n
+        for arm, why in bad:
+            chk.fail("C03-D8", fi, arm, "{}: elif {}".format(
+                fi.short, src(arm.test)[:50]), why)
+        for _ in range(n - len(bad)):
+            chk.ok("C03-D8", fi, fi.node, fi.short, "arm reachable", False)
+
+
+def d9_rename_position(chk: Check) -> None:
+    """[name()] rename in an ordered mapping: the entry keeps its position.
+    The position is the index of the *key* being renamed among the keys; an
+    index looked up among the values is the position of the first entry
+    with an equal value, so bystander keys move."""
+    from sa.coords import loop_binding, reaching_def
+    prog = chk.prog
+    chk.rule("C03-D9", "a renamed key is re-inserted at the index of that "
+             "key among the mapping's keys", floor=1)
+    fi = prog.func("Processor._apply_change")
+    chk.analysed(fi)
+    ins = [c for c in walk_local(fi.node) if isinstance(c, ast.Call) and
+           isinstance(c.func, ast.Attribute) and c.func.attr == "insert" and
+           len(c.args) == 3]
+    if not ins:
+        raise AnalysisError("key re-insertion of _apply_change not found")
+    for c in ins:
+        cont = src(c.func.value)
+        pos = c.args[0]
+        text = src(c)[:70]
+        why = None
+        if isinstance(pos, ast.Name):
+            from sa.model import ancestors as _anc
+            loops = [a for a in _anc(c) if isinstance(a, ast.For) and any(
+                isinstance(x, ast.Name) and x.id == pos.id
+                for x in ast.walk(a.target))]
+            d = reaching_def(pos.id, c) if not loops else None
+            if loops:
+                # bound by a loop: over a snapshot comprehension of
+                # enumerate(<cont>.keys()) filtered on the key
+                it = loops[0].iter
+                t = src(it).replace(" ", "")
+                if "enumerate({}.keys())".format(cont) in t or \
+                        "enumerate({})".format(cont) in t:
+                    why = "index from enumerate over the keys"
+            elif d is not None:
+                t = src(d).replace(" ", "")
+                if t.startswith(("list({}.keys()).index(".format(cont),
+                                 "list({}).index(".format(cont))):
+                    why = "index looked up among the keys"
+        if why:
+            chk.ok("C03-D9", fi, c, text, why)
+        else:
+            chk.fail("C03-D9", fi, c, text,
+                     "the position `{}` is not derived from the mapping's "
+                     "keys: the renamed entry lands where another entry "
+                     "(e.g. the first one with an equal value) sits, and "
+                     "the order of the bystanders changes".format(src(pos)))
 
